@@ -32,9 +32,10 @@ std::string primary_property(const std::string &profile) {
     return "C01";
 }
 
+static std::string g_sig_suffix; // context tag of the current op (a configuration class with a listed finding)
 static void add_viol(Outcome &o, const std::string &prop, const std::string &oracle, const std::string &detail, int op, const std::string &sig = "") {
     if (o.viols.size() >= 12) return;
-    Viol v; v.prop = prop; v.oracle = oracle; v.detail = detail; v.op = op; v.sig = sig.empty() ? oracle : sig;
+    Viol v; v.prop = prop; v.oracle = oracle; v.detail = detail; v.op = op; v.sig = (sig.empty() ? oracle : sig) + g_sig_suffix;
     o.viols.push_back(v);
 }
 
@@ -181,6 +182,20 @@ void eval_factorization(Ctx &x, int opi, const OpSpec &op, long info, bool check
         if (!c.stype_nr) { Aeff = t == 0 ? Md : t == 1 ? transpose(Md) : conj_transpose(Md); etrans = t != 0; }
         else { Aeff = t == 0 ? transpose(Md) : t == 1 ? Md : conj_dense(Md); etrans = t == 0; }
         std::vector<std::string> se; ld mr = 0;
+        bool finite = true;
+        for (auto &v : Xout) if (!(absl_(v) < INFINITY)) finite = false;
+        if (!finite) {
+            // a solution (or an intermediate of the triangular solves) outside the range of the working precision
+            // is overflow, not instability: admitted only if the reference confirms the magnitude
+            std::vector<cld> Xr; ld xm = 0, big = prec_is_single(c.prec) ? 3.4e38L : 1.7e308L;
+            if (ref_solve(Aeff, Bin, c.nrhs, Xr)) for (auto &v : Xr) xm = std::max(xm, absl_(v));
+            ld lum = 0; for (auto &v : L.a) lum = std::max(lum, absl_(v));
+            ld uinv = 0; for (int i = 0; i < n; ++i) { ld d = absl_(U.at(i, i)); if (d > 0) uinv = std::max(uinv, 1 / d); }
+            ld bm = 0; for (auto &v : Bin) bm = std::max(bm, absl_(v));
+            if (xm * (1 + lum) * n > 1e-6L * big || bm * uinv * (1 + lum) * n > 1e-6L * big || ri.cond1 > 1 / eps) { o.excl["solution_overflows_precision"]++; return; }
+            add_viol(o, "C01", "nonfinite_solution", fmt("X has non-finite entries although the exact solution has magnitude %.3Le (cond1 %.3Le)", xm, ri.cond1), opi);
+            return;
+        }
         check_solve(Aeff, etrans, pr, pc, L, U, Bin, Xout, c.nrhs, c.prec, se, &mr);
         for (auto &e : se) add_viol(o, "C01", "residual", e, opi);
         o.probes["solves_checked"]++;
@@ -234,6 +249,8 @@ Outcome run_case(Case &c, const RunnerOpts &ro) {
         OpSpec &op = c.ops[opi];
         g_op = opi;
         for (int i = 0; i < 9; ++i) g_ienv[i] = op.ienv[i];
+        g_sig_suffix = op.ienv[3] < op.ienv[2] ? "@maxsuper_lt_relax" : "";
+        if (op.ienv[3] < op.ienv[2]) out.probes["cfg_maxsuper_lt_relax"]++;
         if (op.dyn_snode) setenv("SuperLU_DYNAMIC_SNODE_STORE", "1", 1); else unsetenv("SuperLU_DYNAMIC_SNODE_STORE");
         if (op.values_id != x.cur_values) { drv.set_values(c.values[op.values_id]); x.cur_values = op.values_id; }
         bool first_time = (op.kind == OP_GSSV) || ((op.kind == OP_GSSVX) && op.x.fact != 2 && !op.x.refact) || (op.kind == OP_ROUTE && !op.x.refact);
